@@ -256,6 +256,7 @@ func (c wsConn) Close() error {
 // ---- one schedule on the real client ----
 
 type wsRun struct {
+	garbageN int
 	k        *wsCtl
 	client   graphql.WebSocketClient
 	errChan  chan error
@@ -575,7 +576,11 @@ func (r *wsRun) exec(e wsEv) error {
 		case "other":
 			data = fmt.Sprintf(`{"type":"error","id":%q,"payload":[{"message":"bad"}]}`, id)
 		default:
-			data = `<<<not json`
+			// malformed frames of several shapes, all answered the same way by the unchanged reader (a decode error on
+			// the error channel): not JSON, zero-length, white space only, a JSON value that is not an object
+			// (seeded change C13-r11 indexed message[0] of an empty frame)
+			r.garbageN++
+			data = []string{`<<<not json`, ``, " \n", `[]`, `"next"`}[r.garbageN%5]
 		}
 		g <- wsRead{data: []byte(data)}
 	case "readErr":
